@@ -1,6 +1,7 @@
 package main
 
 import (
+	"encoding/json"
 	"flag"
 	"fmt"
 	"os"
@@ -33,6 +34,7 @@ func main() {
 	verbose := flag.Bool("v", false, "print every obligation")
 	list := flag.Bool("list", false, "list properties with checks")
 	dump := flag.String("dump", "", "debug: print the SSA of the functions whose name contains this string")
+	dumpAnchors := flag.Bool("dump-anchors", false, "print the function/signature table of -repo (to regenerate anchors.json)")
 	flag.Parse()
 	if *list {
 		var ids []string
@@ -43,6 +45,25 @@ func main() {
 		for _, id := range ids {
 			fmt.Println(id)
 		}
+		return
+	}
+	if *dumpAnchors {
+		prog, err := loadProgram(*repo, nil, "")
+		if err != nil {
+			fmt.Println(err)
+			os.Exit(2)
+		}
+		tab := map[string]map[string]string{}
+		for _, pkg := range prog.ModPkgs {
+			suffix := strings.TrimPrefix(strings.TrimPrefix(pkg.PkgPath, modPath), "/")
+			tab[suffix] = map[string]string{}
+			for k, fn := range prog.declaredFuncs(suffix) {
+				_, sig := funcKeyAndSig(fn)
+				tab[suffix][k] = sig
+			}
+		}
+		out, _ := json.MarshalIndent(tab, "", " ")
+		fmt.Println(string(out))
 		return
 	}
 	if *dump != "" {
